@@ -1372,7 +1372,12 @@ fn pick_cfg(rng: &mut impl Rng, kind: Kind, big_shards: bool) -> (usize, usize, 
         let k = rng.gen_range(1..=lim);
         let r = rng.gen_range(1..=lim);
         let sb = if big_shards {
-            *[1024usize, 2048, 4096, 4160, 8320, 1026, 3000].choose(rng).unwrap()
+            // half of them huge (allocation verdicts are only given beyond 400 000 bytes), with small shapes
+            if k + r <= 12 && rng.gen_bool(0.5) {
+                *[409_600usize, 409_602, 524_288, 524_350, 400_000, 1_048_578].choose(rng).unwrap()
+            } else {
+                *[1024usize, 2048, 4096, 4160, 8320, 1026, 3000].choose(rng).unwrap()
+            }
         } else {
             // mostly up to four blocks; sometimes beyond 1 KiB with a partial last block (kernels that work in strips)
             *[2usize, 4, 6, 8, 30, 62, 64, 66, 126, 128, 130, 192, 256, 258, 2, 64, 66, 1026, 1150, 3000].choose(rng).unwrap()
